@@ -207,7 +207,7 @@ def putStep (s : Sys) (t : Nat) (x : Task) : Sys :=
     putOrBlock s t x (.sender m.running nx (r + 1) cl) (.sender m.running (nx + 1) r cl) (.data t nx)
   | .flusher (some (r + 1)) =>
     putOrBlock s t x (.flusher (some (r + 1))) (.flusher (some r)) .flush
-  | _ => finish s t x .ok
+  | _ => s   -- not reachable: only a sender / flusher with something left to put gets here
 
 /-- the receiver has taken `it` off the queue (`rest` remains): `get_nowait` wakes a putter, then
     (fixed code) `task_done()`, which raises ValueError if nothing is unfinished, then the
